@@ -1,4 +1,5 @@
 import DaeVerif.C05.ProofsTimed
+import DaeVerif.C05.ProofsX
 import DaeVerif.C05.Gen.DeadlinePaths
 /-!
 # C05 — property theorems
@@ -543,5 +544,217 @@ theorem deadline_table_covers_probes :
     (Gen.deadlinePaths.any fun r => r.func == "prefetchForTcpSniff" && r.cleared) = true ∧
     (Gen.deadlinePaths.any fun r => r.func == "Sniffer.readStreamOnceWithReadDeadline" && r.cleared && !r.armFailed) = true ∧
     (Gen.deadlinePaths.any fun r => r.isGraceTimer) = true := by decide
+
+/-! ## 5. The gather write under every `writev` schedule (partial writes, EINTR, EAGAIN, errors) -/
+
+/-- **`relayWritevAll`.** Whatever the kernel does call by call — takes any number of the offered bytes
+(0 included), is interrupted, asks to wait (and the wait itself may fail), or fails — the destination socket has
+received exactly the first `written` bytes of the concatenated segments, in order, each once
+(`relayAdvanceSegments` resumes exactly where the kernel stopped, `relayNonEmptySegments` drops nothing but empty
+segments), `written` never exceeds the total, and a `nil` return means every byte was written. -/
+theorem gather_write_no_loss_no_dup (sched : List WvStep) (segs : List Bytes) :
+    (writevAll sched segs).sink = segs.flatten.take (writevAll sched segs).written ∧
+    (writevAll sched segs).written ≤ segs.flatten.length ∧
+    ((writevAll sched segs).fin = .ok → (writevAll sched segs).sink = segs.flatten) := by
+  have h := writevLoop_spec sched (nonEmptySegs segs)
+  rw [nonEmptySegs_flatten] at h
+  unfold writevAll
+  refine ⟨h.sink, h.le, fun hok => ?_⟩
+  rw [h.sink, h.ok hok, List.take_length]
+
+/-- a first `writev` that takes 3 of 6 bytes and asks to wait, an interrupted one, then the rest -/
+example : writevAll [⟨3, .eagain true⟩, ⟨0, .eintr⟩, ⟨9, .none⟩] [[1, 2], [], [3, 4, 5], [6]] =
+    ⟨[1, 2, 3, 4, 5, 6], 6, .ok⟩ ∧
+    writevAll [⟨3, .none⟩, ⟨0, .none⟩] [[1, 2], [3, 4, 5]] = ⟨[1, 2, 3], 3, .short⟩ ∧
+    writevAll [⟨4, .other⟩] [[1, 2], [3, 4, 5]] = ⟨[1, 2, 3, 4], 4, .err⟩ := by decide
+
+/-- `relayAdvanceSegments` removes exactly the first `n` bytes; `relayBuildWriteSegments` is prefix segments then
+body; `relayNonEmptySegments` keeps every byte. -/
+theorem gather_segment_helpers_exact (segs : List Bytes) (body : Bytes) (n : Nat) :
+    (advanceSegs segs n).flatten = segs.flatten.drop n ∧
+    (buildWriteSegs segs body).flatten = segs.flatten ++ body ∧
+    (nonEmptySegs segs).flatten = segs.flatten ∧ (∀ s ∈ nonEmptySegs segs, s ≠ []) :=
+  ⟨advanceSegs_flatten segs n, buildWriteSegs_flatten segs body, nonEmptySegs_flatten segs, nonEmptySegs_all segs⟩
+
+example : advanceSegs [[1, 2], [3, 4, 5], [6]] 3 = [[4, 5], [6]] ∧ advanceSegs [[1, 2], [3]] 2 = [[3]] ∧
+    buildWriteSegs [[1], [2, 3]] [4] = [[1], [2, 3], [4]] ∧ buildWriteSegs [] [4] = [[4]] := by decide
+
+/-! ## 6. The accounting splice loop under every `splice` schedule -/
+
+/-- **`relaySpliceCopyExact`.** For every schedule of `splice` results on both legs (any partial counts, EOF,
+errors) and a context cancelled during any call: at every exit, what the destination received, followed by what
+sits in the pipe, followed by what is still in the source socket, is exactly the source stream — the
+destination holds a prefix, nothing is skipped or repeated across the pipe hand-over; `written` is the number
+of bytes the destination received; `pipe.data` is the number of bytes in the pipe; and a `nil` return leaves the
+pipe empty. -/
+theorem splice_loop_conserves (sched : List SpStep) (src : Bytes) :
+    (spliceCopy sched src).st.dst ++ ((spliceCopy sched src).st.pipe ++ (spliceCopy sched src).st.src) = src ∧
+    (spliceCopy sched src).st.written = (spliceCopy sched src).st.dst.length ∧
+    (spliceCopy sched src).st.data = (spliceCopy sched src).st.pipe.length ∧
+    ((spliceCopy sched src).fin = .ok → (spliceCopy sched src).st.pipe = []) := by
+  have h := spliceLoop_inv src sched true (SpState.init src) (SpInv.init src)
+  exact ⟨h.1.cons, h.1.written, h.1.data, h.2⟩
+
+/-- …so `putRelaySplicePipe` returns a pipe to the shared pool only when it is empty: the next connection never
+starts with another connection's bytes (seeded change C05-f as a theorem). -/
+theorem splice_pipe_pooled_only_when_empty (sched : List SpStep) (src : Bytes)
+    (h : (spliceCopy sched src).pooled = true) : (spliceCopy sched src).st.pipe = [] := by
+  have hd := (splice_loop_conserves sched src).2.2.1
+  unfold SpOut.pooled at h
+  have : (spliceCopy sched src).st.data = 0 := by simpa using h
+  rw [this] at hd
+  exact List.eq_nil_of_length_eq_zero hd.symm
+
+/-- 5 bytes in, 2 out, the destination fails with 3 bytes parked in the pipe: not pooled; a clean run: pooled -/
+example : (spliceCopy [⟨5, .none, false⟩, ⟨2, .none, false⟩, ⟨0, .other, false⟩] [1, 2, 3, 4, 5, 6]).st.dst = [1, 2] ∧
+    (spliceCopy [⟨5, .none, false⟩, ⟨2, .none, false⟩, ⟨0, .other, false⟩] [1, 2, 3, 4, 5, 6]).pooled = false ∧
+    (spliceCopy [⟨5, .none, false⟩, ⟨9, .none, false⟩, ⟨9, .none, false⟩, ⟨9, .none, false⟩, ⟨0, .eof, false⟩]
+      [1, 2, 3, 4, 5, 6]).st.dst = [1, 2, 3, 4, 5, 6] ∧
+    (spliceCopy [⟨5, .none, false⟩, ⟨9, .none, false⟩, ⟨9, .none, false⟩, ⟨9, .none, false⟩, ⟨0, .eof, false⟩]
+      [1, 2, 3, 4, 5, 6]).pooled = true := by decide
+
+/-! ## 7. A destination that fails after accepting `cap` bytes -/
+
+/-- **Write failure at any byte offset, every wrapper, every copy path.** Towards a destination that accepts
+`cap` bytes and fails the write that exceeds them (which may be partial), the engine delivers exactly what it
+would have delivered, cut at `cap`, and reports failure; if everything fits it behaves as without the limit.
+Nothing is retried (no duplicate), nothing is written after the failure (no gap). -/
+theorem copy_to_failing_destination (env : Env) (fuel : Nat) (st : Stack) (b : Base) (cap : Nat) :
+    engineCopyW env fuel st b cap = (engineCopy env fuel st b).capTo cap :=
+  engineCopyW_capTo env fuel st b cap
+
+/-- …hence, with `relay_identity`: the destination holds exactly the first `cap` bytes of "buffered ++ rest of
+the stream". -/
+theorem failing_destination_gets_exact_prefix (env : Env) (st : Stack) (b : Base) (fuel cap : Nat)
+    (hfuel : st.measure b < fuel) (hp : st.poisoned = false) (hcap : cap < (st.content ++ b.flat).length) :
+    engineCopyW env fuel st b cap = ⟨(st.content ++ b.flat).take cap, false⟩ := by
+  rw [engineCopyW_capTo, engineCopy_identity env fuel st b hp hfuel]
+  exact capTo_mk_gt _ _ _ hcap
+
+example : engineCopyW ⟨false, false, false⟩ 20 (.bufio [1, 2, 3]) ⟨[[4], [5, 6]], .eof, false⟩ 4 = ⟨[1, 2, 3, 4], false⟩ ∧
+    engineCopyW ⟨false, false, false⟩ 20 (.bufio [1, 2, 3]) ⟨[[4], [5, 6]], .eof, false⟩ 2 = ⟨[1, 2], false⟩ ∧
+    engineCopyW ⟨false, false, false⟩ 20 (.bufio [1, 2, 3]) ⟨[[4], [5, 6]], .eof, false⟩ 6 = ⟨[1, 2, 3, 4, 5, 6], true⟩ := by
+  decide
+
+/-! ## 8. The whole connection under faults (write failures, cancellation, a failing dial) -/
+
+/-- the fault-free instance of the fault model is the model of sections 2–3: every theorem there is a theorem
+about `connF cfg Faults.none` -/
+theorem fault_free_is_conn (cfg : Cfg) (c u : Script) : connF cfg Faults.none c u = conn cfg c u :=
+  connF_noFaults cfg c u
+
+example : (connF exCfg Faults.none exClient exUp).ret = 9000000 := by decide
+
+/-- **In every case, under every fault.** A write towards either peer failing at any byte offset, `handleConn`'s
+context cancelled at any time (shutdown, reload), a failing dial, on top of anything the peers do (resets,
+grace expiry, a latched error): what a peer receives is a prefix of what the other peer sent — never a byte
+that was not sent, never out of order, never twice. -/
+theorem received_is_prefix_under_faults (cfg : Cfg) (flt : Faults) (c u : Script) (hc : c.Sorted) (hu : u.Sorted) :
+    bytesOf (connF cfg flt c u).up <+: c.stream ∧ bytesOf (connF cfg flt c u).cl <+: u.stream := by
+  have fs := front_spec cfg c
+  have ha := front_armed cfg c
+  cases hk : (front cfg c).kind with
+  | relay =>
+    by_cases hd : flt.dialFails = true
+    · unfold connF; simp [hk, hd, bytesOf]
+    · have hd' : flt.dialFails = false := by simpa using hd
+      rw [connF_relay cfg flt c u hk hd']
+      have hstream := fs.stream hk
+      have hsorted := fs.sorted hc
+      unfold relayPhaseF
+      generalize front cfg c = f at *
+      rw [ha]
+      simp only [dirNaturalArmed]
+      have gl := Good.capRun (dirNatural f.T f.st.content f.st.poisoned f.rest)
+        (Good.of_prefix (natDelivs_sorted f.T f.st.content f.rest hsorted) (dirNatural_out_prefix _ _ _ _)) flt.upCap
+      have gr := Good.capRun (dirNatural f.T [] false u)
+        (Good.of_prefix (natDelivs_sorted f.T [] u hu) (dirNatural_out_prefix _ _ _ _)) flt.clCap
+      have g1 := relayOf_good cfg f _ _ _ _ gl gr
+      have g2 := applyCancel_good flt.cancelAt f.T _ _ _ g1.1 g1.2
+      have h1 := g2.1.pre
+      have h2 := g2.2.pre
+      rw [bytesOf_natDelivs, hstream] at h1
+      rw [bytesOf_natDelivs, List.nil_append] at h2
+      exact ⟨h1, h2⟩
+  | abort => unfold connF; simp [hk, bytesOf]
+  | dns => unfold connF; simp [hk, bytesOf]
+
+/-- the upstream accepts 20 bytes: it gets the 16 buffered bytes and 4 of the next segment, then all is over -/
+example : bytesOf (connF exCfg { Faults.none with upCap := some 18 } exClient exUp).up = exClient.stream.take 18 ∧
+    (connF exCfg { Faults.none with upCap := some 18 } exClient exUp).ret = 300000 := by decide
+
+/-- **Cancellation cuts only at the cancellation.** When the control plane's context is cancelled at `x`
+(shutdown / reload), the connection ends at `max T x` unless it was over before; everything either peer would
+have received before that instant it still receives; a cancellation after the connection's own end changes
+nothing. -/
+theorem external_cancel_cuts_only_at_cancel (cfg : Cfg) (flt : Faults) (c u : Script) (x : Nat)
+    (hk : (front cfg c).kind = .relay) (hd : flt.dialFails = false) :
+    (connF cfg { flt with cancelAt := some x } c u).ret =
+      min (connF cfg { flt with cancelAt := none } c u).ret (max (front cfg c).T x) ∧
+    (∀ d ∈ (connF cfg { flt with cancelAt := none } c u).up, d.t < max (front cfg c).T x →
+      d ∈ (connF cfg { flt with cancelAt := some x } c u).up) ∧
+    (∀ d ∈ (connF cfg { flt with cancelAt := none } c u).cl, d.t < max (front cfg c).T x →
+      d ∈ (connF cfg { flt with cancelAt := some x } c u).cl) ∧
+    ((connF cfg { flt with cancelAt := none } c u).ret ≤ max (front cfg c).T x →
+      connF cfg { flt with cancelAt := some x } c u = connF cfg { flt with cancelAt := none } c u) := by
+  rw [connF_relay cfg { flt with cancelAt := some x } c u hk hd,
+    connF_relay cfg { flt with cancelAt := none } c u hk hd]
+  unfold relayPhaseF
+  simp only [applyCancel]
+  generalize relayOf cfg (front cfg c) _ _ = o0
+  by_cases hx : max (front cfg c).T x < o0.ret
+  · simp only [hx, ↓reduceIte]
+    exact ⟨by omega, fun d hd ht => cutBefore_keeps _ _ _ hd ht, fun d hd ht => cutBefore_keeps _ _ _ hd ht,
+      fun h => by omega⟩
+  · simp only [hx, ↓reduceIte]
+    exact ⟨by omega, fun d hd _ => hd, fun d hd _ => hd, fun _ => trivial⟩
+
+example : (connF exCfg { Faults.none with cancelAt := some 1000003 } exClient exUp).ret = 1000003 ∧
+    bytesOf (connF exCfg { Faults.none with cancelAt := some 1000003 } exClient exUp).up = exClient.stream ∧
+    (connF exCfg { Faults.none with cancelAt := some 1000003 } exClient exUp).upEof = 1000003 := by decide
+
+/-- **A failing dial.** Nothing is forwarded in either direction and the client connection is closed at the
+dial, i.e. within the detection window. -/
+theorem dial_failure_forwards_nothing (cfg : Cfg) (flt : Faults) (c u : Script) (hd : flt.dialFails = true) :
+    (connF cfg flt c u).up = [] ∧ (connF cfg flt c u).cl = [] ∧
+    cfg.start ≤ (connF cfg flt c u).ret ∧ (connF cfg flt c u).ret ≤ cfg.start + frontBound cfg ∧
+    (connF cfg flt c u).clEof = (connF cfg flt c u).ret := by
+  have fs := front_spec cfg c
+  unfold connF
+  generalize front cfg c = f at *
+  cases hk : f.kind <;> simp only [hk, hd, ↓reduceIte] <;> exact ⟨trivial, trivial, fs.lb, fs.ub, trivial⟩
+
+example : (connF exCfg { Faults.none with dialFails := true } exClient exUp).ret = 100000 := by decide
+
+/-- **Half-close towards an upstream that cannot half-close** (most proxy protocols: `rightCW = false`). The
+client's FIN cannot be passed on as a write shutdown: the upstream sees the end of the client's stream only when
+the relay closes the connection — which happens when the upstream ends or the grace period expires, whichever
+is first, i.e. at most `grace` after the client's FIN; the client's bytes are all delivered before that, and the
+upstream's segments still reach the client until then. -/
+theorem halfclose_without_closewrite (cfg : Cfg) (c u : Script)
+    (hk : (front cfg c).kind = .relay) (hc : c.fin = .eof) (hcw : cfg.rightCW = false)
+    (hfirst : endL cfg c ≤ endR cfg c u) :
+    (conn cfg c u).upEof = (conn cfg c u).ret ∧
+    (conn cfg c u).ret = min (endR cfg c u) (endL cfg c + grace) ∧
+    bytesOf (conn cfg c u).up = c.stream := by
+  have hp := clean_of_eof cfg c hc
+  have fs := front_spec cfg c
+  have hfin := fs.fin
+  have hfinT := fs.finT
+  have hstream := fs.stream hk
+  have ha := front_armed cfg c
+  rw [relayPhase_eq cfg c u hk]
+  unfold endL endR at *
+  generalize front cfg c = f at *
+  rw [relayPhase_client_first cfg f u hp ha (by rw [hfinT]; exact hfirst)]
+  simp only [hfin, hc, hfinT, hcw, ↓reduceIte]
+  by_cases hg : max f.T u.finT < max f.T c.finT + grace
+  · simp only [hg, ↓reduceIte, Bool.false_eq_true]
+    exact ⟨trivial, by omega, by rw [bytesOf_natDelivs, hstream]⟩
+  · simp only [hg, ↓reduceIte, Bool.false_eq_true]
+    exact ⟨trivial, by omega, by rw [bytesOf_natDelivs, hstream]⟩
+
+example : (conn { exCfg with rightCW := false } exClient exUp).upEof = 9000000 ∧
+    (conn exCfg exClient exUp).upEof = 2300000 := by decide
 
 end DaeVerif.C05.Props
